@@ -145,6 +145,9 @@ def decipher_all(decipher: DecipherCallable, objid: int, genno: int, x: object) 
     elif isinstance(x, dict):
         for k, v in x.items():
             x[k] = decipher_all(decipher, objid, genno, v)
+    elif isinstance(x, PDFStream):
+        # the strings in the dictionary of a stream are encrypted like any other
+        decipher_all(decipher, objid, genno, x.attrs)
     return x
 
 
